@@ -47,7 +47,8 @@ REGISTRY = {
             "lsp_queries_pure", "hover_expr_sound", "hover_expr_complete", "goto_is_declaration",
             "hover_text_is_decl_type", "frame_roundtrip", "frames_roundtrip", "readFrame_ok_splits",
             "server_wire", "server_output_exact"],
-    "C20": ["check_exit_iff_error", "cli_exit_args_literal_one", "cli_check_single_exit_guard", "check_exit_byte_iff_error"],
+    "C20": ["check_exit_iff_error", "cli_exit_args_literal_one", "cli_check_single_exit_guard", "check_exit_byte_iff_error",
+            "sortDiags_perm", "sortDiags_sorted", "report_exit_iff", "report_exit_sorted", "report_total", "report_lists_every_diagnostic"],
 }
 
 # evidence level per property: "proof" only when REGISTRY[pid] is non-empty and carries the property
